@@ -151,6 +151,20 @@ def run_case(case):
                 if bool(N.is_nibbles_terminated(full)) != t or tuple(N.remove_nibbles_terminator(full)) != ns or \
                         tuple(N.add_nibbles_terminator(ns)) != ns + (16,):
                     res.fail("terminator-helpers", "terminator helpers disagree on %r" % (full,))
+                # the same sequence held in a list (the library itself passes lists: encode_nibbles([idx]), compute_leaf_key([]))
+                lfull = list(full)
+                lenc, lerr = call(lambda: N.encode_nibbles(lfull))
+                res.emit("enc.hp %s" % nibstr(full), hx(lenc) if lerr is None else "exn " + lerr)
+                if lerr is not None or lenc != yp_hp(list(ns), t):
+                    res.fail("hp-differs-from-yellow-paper", "encode_nibbles(%r) (a list) = %r / %r, HP gives %s"
+                             % (lfull, lenc, lerr, yp_hp(list(ns), t).hex()))
+                lkey, lerr = call(lambda: ND.compute_leaf_key(list(ns)) if t else ND.compute_extension_key(list(ns)))
+                if lerr is not None or lkey != yp_hp(list(ns), t):
+                    res.fail("compute-key", "compute_%s_key(%r) (a list) = %r / %r" % ("leaf" if t else "extension", list(ns), lkey, lerr))
+                lh, lerr = call(lambda: (bool(N.is_nibbles_terminated(lfull)), tuple(N.remove_nibbles_terminator(lfull)),
+                                         tuple(N.add_nibbles_terminator(list(ns)))))
+                if lerr is not None or lh != (t, ns, ns + (16,)):
+                    res.fail("terminator-helpers", "terminator helpers disagree on the list %r: %r / %r" % (lfull, lh, lerr))
             if len(ns) % 2 == 0:
                 b, err = call(lambda: N.nibbles_to_bytes(ns))
                 res.emit("enc.n2b %s" % nibstr(ns), hx(b) if err is None else "exn " + err)
